@@ -1,4 +1,5 @@
 import CssVerif.Lemmas.Codec
+import CssVerif.Lemmas.CodecInc
 /-!
 # C07 — CSS codec: detection follows CSS 2.1 §4.4, early answers are never revised
 
@@ -19,23 +20,8 @@ theorem detect_final_total (l : List Nat) : detect l true ≠ none := by
 /-- T7.2 "never a wrong encoding": an answer given before the end of the data is exactly the answer
 given for every continuation of that data, final or not — for all byte strings and all continuations. -/
 theorem detect_never_revised (p ext : List Nat) (b : Bool) (r : Enc × Bool)
-    (h : detect p false = some r) : detect (p ++ ext) b = some r := by
-  unfold detect at *
-  cases hc : core p false with
-  | dflt => simp [hc] at h
-  | ans e x =>
-    have := core_stable ext p b (by rw [hc]; simp)
-    simp only [hc] at h
-    simp only [this, hc]; exact h
-  | scan =>
-    have := core_stable ext p b (by rw [hc]; simp)
-    simp only [hc] at h
-    simp only [this, hc]
-    cases hn : charsetName p with
-    | none => simp [hn] at h
-    | some n =>
-      simp only [hn] at h
-      simp only [charsetName_append p ext n hn]; exact h
+    (h : detect p false = some r) : detect (p ++ ext) b = some r :=
+  detect_stable p ext b r h
 
 /-- "unknown yet" is only ever said when `final` is false -/
 theorem detect_none_only_nonfinal (l : List Nat) (b : Bool) (h : detect l b = none) : b = false := by
@@ -143,69 +129,8 @@ theorem charset_rule (name t : List Nat) (f : Bool) (hn : ∀ c ∈ name, c ≠ 
 /-- the `@charset` rewriter likewise never revises: a result produced before the end of the data is a
 prefix-faithful result for every continuation (output so far ++ the rest, untouched) -/
 theorem fix_never_revised (p ext enc r : List Nat) (b : Bool)
-    (h : fixEncoding p enc false = some r) : fixEncoding (p ++ ext) enc b = some (r ++ ext) := by
-  unfold fixEncoding at *
-  by_cases hl : p.length > 10
-  · have hl' : (p ++ ext).length > 10 := by simp; omega
-    have hpre : prefix10.isPrefixOf (p ++ ext) = prefix10.isPrefixOf p := by
-      have hlen : prefix10.length ≤ p.length := by simp [prefix10]; omega
-      cases hp : prefix10.isPrefixOf p with
-      | true =>
-        rw [List.isPrefixOf_iff_prefix] at hp
-        exact List.isPrefixOf_iff_prefix.mpr (hp.trans (List.prefix_append p ext))
-      | false =>
-        cases hq : prefix10.isPrefixOf (p ++ ext) with
-        | false => rfl
-        | true =>
-          rw [List.isPrefixOf_iff_prefix] at hq
-          have := List.prefix_of_prefix_length_le hq (List.prefix_append p ext) hlen
-          rw [← List.isPrefixOf_iff_prefix] at this
-          rw [this] at hp; cases hp
-    rw [if_pos hl] at h
-    rw [if_pos hl', hpre]
-    by_cases hp : prefix10.isPrefixOf p = true
-    · rw [if_pos hp] at h ⊢
-      have d10 : (p ++ ext).drop 10 = p.drop 10 ++ ext := by
-        rw [List.drop_append_of_le_length (by omega)]
-      cases hq : findQuote (p.drop 10) with
-      | none => simp [hq] at h
-      | some k =>
-        have hk := findQuote_lt _ _ hq
-        simp only [hq, Option.some.injEq] at h
-        simp only [d10, findQuote_append _ ext k hq]
-        rw [List.drop_append_of_le_length (by omega), ← h]
-        simp
-    · rw [if_neg hp] at h ⊢
-      simp only [Option.some.injEq] at h; subst h; rfl
-  · rw [if_neg hl] at h
-    have hnp : isPrefixOf10 p = false := by
-      cases hx : isPrefixOf10 p with
-      | false => rfl
-      | true => simp [hx] at h
-    simp only [hnp, Bool.not_false, Bool.true_or, if_true, Option.some.injEq] at h
-    subst h
-    have hnp' : isPrefixOf10 (p ++ ext) = false := by
-      cases hx : isPrefixOf10 (p ++ ext) with
-      | false => rfl
-      | true =>
-        unfold isPrefixOf10 at *
-        rw [List.isPrefixOf_iff_prefix] at hx
-        have := (List.prefix_append p ext).trans hx
-        rw [← List.isPrefixOf_iff_prefix] at this
-        rw [this] at hnp; cases hnp
-    by_cases hl' : (p ++ ext).length > 10
-    · rw [if_pos hl']
-      have : ¬ (prefix10.isPrefixOf (p ++ ext) = true) := by
-        intro hq
-        rw [List.isPrefixOf_iff_prefix] at hq
-        have hlen : p.length ≤ prefix10.length := by simp [prefix10]; omega
-        have := List.prefix_of_prefix_length_le (List.prefix_append p ext) hq hlen
-        unfold isPrefixOf10 at hnp
-        rw [← List.isPrefixOf_iff_prefix] at this
-        rw [this] at hnp; cases hnp
-      rw [if_neg this]
-    · rw [if_neg hl']
-      simp [hnp']
+    (h : fixEncoding p enc false = some r) : fixEncoding (p ++ ext) enc b = some (r ++ ext) :=
+  fix_stable p ext enc r b h
 
 /-- the text-side detector (`@charset` only) never revises either -/
 theorem detectUnicode_never_revised (p ext : List Nat) (b : Bool) (r : Enc × Bool)
@@ -259,7 +184,39 @@ theorem detectUnicode_never_revised (p ext : List Nat) (b : Bool) (r : Enc × Bo
     simp only [hp', Bool.false_eq_true, if_false, hnp', Bool.not_false, Bool.or_true, if_true]
     exact h
 
+/-- T7.5 chunking invariance of the incremental decoder: for EVERY way of cutting the byte stream into
+chunks (any number, any sizes, cuts inside the BOM, inside the `@charset` rule, empty chunks), for every
+setting of `encoding`/`force`, and for every inner codec that is itself chunk-invariant, the concatenated
+output of `IncrementalDecoder` equals one-shot `decode` of the whole input. -/
+theorem decoder_chunking (I : Inner) (given : Option Name) (force : Bool) (cs : List (List Nat)) :
+    runAll I given force cs = oneShot I given force cs.flatten := by
+  unfold runAll
+  have h0 : Inv I given force [] [] (.waiting given force []) := ⟨rfl, rfl, rfl, rfl⟩
+  have h1 := runChunks_inv I given force cs [] [] _ h0
+  have h2 := final_step I given force _ _ _ h1
+  simpa using h2
+
+/-- the machine never emits anything it has to take back: what was emitted after any prefix of the
+chunks is a prefix of the final result (outputs are only ever appended) -/
+theorem decoder_output_is_prefix (I : Inner) (given : Option Name) (force : Bool) (cs ds : List (List Nat)) :
+    ∃ ext, runAll I given force (cs ++ ds) = (runChunks I (.waiting given force []) cs).2 ++ ext := by
+  refine ⟨(runChunks I (runChunks I (.waiting given force []) cs).1 ds).2 ++
+    (step I (runChunks I (runChunks I (.waiting given force []) cs).1 ds).1 [] true).2, ?_⟩
+  have key : ∀ (xs ys : List (List Nat)) (s : DSt),
+      runChunks I s (xs ++ ys) = ((runChunks I (runChunks I s xs).1 ys).1,
+        (runChunks I s xs).2 ++ (runChunks I (runChunks I s xs).1 ys).2) := by
+    intro xs
+    induction xs with
+    | nil => intro ys s; simp [runChunks]
+    | cons x xs ih => intro ys s; simp [runChunks, ih, List.append_assoc]
+  unfold runAll
+  rw [key]
+  simp [List.append_assoc]
+
 /-! non-vacuity: the hypotheses above are met by ordinary inputs -/
+/-- an inner codec satisfying the `Inner` laws exists (identity, e.g. latin-1 on bytes) -/
+def idInner : Inner := ⟨fun _ b _ => b, fun _ a b _ => ⟨b, rfl⟩, fun _ => rfl⟩
+example : runAll idInner none true [[0x40, 0x63], [0x68]] = [0x40, 0x63, 0x68] := by decide
 example : fixEncoding [0x61, 0x62] [0x78] false = some [0x61, 0x62] := by decide
 example : detectUnicode [0x61] false = some (.utf8, false) := by decide
 example : detect [0x40, 0x63] false = none := by decide
